@@ -156,8 +156,10 @@ def appended(o, n, k, v):
         n.root == o.root, new >= o.alloc, z3.Select(n.live, new), z3.Select(n.t, new) == o.clock, n.clock == o.clock + 1,
         z3.Select(n.key, new) == k, z3.Select(n.val, new) == v,
         z3.ForAll([r], z3.Implies(r < o.alloc, z3.And(
-            z3.Select(n.live, r) == z3.Select(o.live, r), z3.Select(n.t, r) == z3.Select(o.t, r),
-            z3.Select(n.key, r) == z3.Select(o.key, r), z3.Select(n.val, r) == z3.Select(o.val, r)))),
+            z3.Select(n.live, r) == z3.Select(o.live, r),
+            z3.Implies(z3.Select(o.live, r), z3.And(z3.Select(n.t, r) == z3.Select(o.t, r),
+                                                    z3.Select(n.key, r) == z3.Select(o.key, r),
+                                                    z3.Select(n.val, r) == z3.Select(o.val, r)))))),
         z3.ForAll([r], z3.Implies(z3.And(r >= o.alloc, r != new), z3.Not(z3.Select(n.live, r)))))
 
 
@@ -320,10 +322,14 @@ def full_wf(v):
 
 
 def pub_req(c):
+    return full_wf(V(c))
+
+
+def dict_facts(c):
+    """true of every real dict (trusted): len >= 0 and len == 0 iff there is no key"""
     v = V(c)
     kf = z3.Const('kf', Val)
-    return full_wf(v) + [('dict facts', z3.And(v.dsize >= 0, v.msize >= 0,
-                                               (v.dsize == 0) == z3.ForAll([kf], z3.Not(z3.Select(v.ddom, kf)))))]
+    return [('dict facts', z3.And(v.dsize >= 0, v.msize >= 0, (v.dsize == 0) == z3.ForAll([kf], z3.Not(z3.Select(v.ddom, kf)))))]
 
 
 def post_wf(c):
@@ -481,3 +487,214 @@ PUBLIC = [('OrderedMultiDict.add', [None]), ('OrderedMultiDict.__setitem__', [No
           ('OrderedMultiDict.__getitem__', [None]), ('OrderedMultiDict.get', [None]),
           ('OrderedMultiDict.getlist', ['nodefault', 'default']), ('OrderedMultiDict.popall', [None]),
           ('OrderedMultiDict.clear', [None])]
+
+
+# =====================================================================================================================
+# pop / poplast / setdefault / popitem (built on the contracts above)
+popall.returns = lambda c: SRef(ValList, c.st.fresh.const('popped_values', z3.IntSort()))   # called without default only
+
+
+def last_val(o, k):
+    return z3.Select(o.val, o.cell(k, o.clen(k) - 1))
+
+
+def pop_ensures(c):
+    o, n = V(c, c.old), V(c)
+    k = c.a('k')
+    present = z3.Select(o.ddom, k)
+    return post_wf(c) + [
+        ('present: the most recent value of k is returned and all pairs of k are removed; every other pair unchanged',
+         z3.Implies(present, z3.And(c.r() == last_val(o, k), killed_key(o, n, k)))),
+        ('absent: the default is returned and nothing changes',
+         z3.Implies(z3.Not(present), z3.And(c.a('default') != MISSING, c.r() == c.a('default'), killed_key(o, n, k))))]
+
+
+pop = Contract('OrderedMultiDict.pop', setup=S('k', 'default'), requires=pub_req, ensures=pop_ensures,
+               raises={'KeyError': lambda c: absent_unchanged(c) + [('no default given', c.a('default') == MISSING)]},
+               modifies=PUB_MOD, returns=lambda c: SVal(c.st.fresh.const('ret', Val)))
+
+
+def setup_poplast(eng, st, variant=None):
+    d = S('default')(eng, st)
+    d['k'] = SVal(MISSING) if variant == 'nokey' else SVal(z3.Const('arg_k', Val))
+    return d
+
+
+def poplast_target(c, o):
+    """the key whose most recent pair goes: the given one, or the key of the globally most recent pair"""
+    if c.eng.variant == 'nokey':
+        return z3.Select(o.key, z3.Select(o.prv, o.root))
+    return c.a('k')
+
+
+def poplast_requires(c):
+    out = pub_req(c)
+    if c.eng.variant != 'nokey':
+        out.append(('a key was given', c.a('k') != MISSING))
+    return out
+
+
+def poplast_ensures(c):
+    o, n = V(c, c.old), V(c)
+    k = poplast_target(c, o)
+    r = z3.Int('r')
+    nonempty = o.dsize != 0 if c.eng.variant == 'nokey' else z3.Select(o.ddom, k)
+    last = o.cell(k, o.clen(k) - 1)
+    removed = z3.And(c.r() == z3.Select(o.val, last), n.root == o.root, n.clock == o.clock,
+                     n.live == z3.Store(o.live, last, False), n.t == o.t, n.key == o.key, n.val == o.val)
+    out = post_wf(c) + [
+        ('exactly the most recent pair of the key is removed and its value returned', z3.Implies(nonempty, removed)),
+        ('nothing to remove: the default is returned, nothing changes', z3.Implies(z3.Not(nonempty), z3.And(
+            c.a('default') != MISSING, c.r() == c.a('default'), n.live == o.live, n.key == o.key, n.val == o.val, n.t == o.t)))]
+    if c.eng.variant == 'nokey':
+        out.append(('without a key it is the globally most recent pair',
+                    z3.Implies(nonempty, z3.And(z3.Select(o.live, z3.Select(o.prv, o.root)), last == z3.Select(o.prv, o.root)))))
+    return out
+
+
+def poplast_raises(c):
+    o = V(c, c.old)
+    k = poplast_target(c, o)
+    nonempty = o.dsize != 0 if c.eng.variant == 'nokey' else z3.Select(o.ddom, k)
+    return [('KeyError only when there is nothing to remove and no default', z3.And(z3.Not(nonempty), c.a('default') == MISSING)),
+            ('state unchanged', z3.And(same(c, LL_KEYS + D_KEYS), ghost_same(c)))]
+
+
+poplast = Contract('OrderedMultiDict.poplast', setup=setup_poplast, requires=poplast_requires, ensures=poplast_ensures,
+                   raises={'KeyError': poplast_raises}, modifies=PUB_MOD, variants=['key', 'nokey'],
+                   local_types=dict(values=REF(ValList)))
+
+
+def setup_setdefault(eng, st, variant=None):
+    d = S('k')(eng, st)
+    d['default'] = SVal(MISSING) if variant == 'nodefault' else SVal(z3.Const('arg_default', Val))
+    return d
+
+
+def setdefault_ensures(c):
+    o, n = V(c, c.old), V(c)
+    k = c.a('k')
+    dv = NONE if c.eng.variant == 'nodefault' else c.a('default')
+    present = z3.Select(o.ddom, k)
+    return post_wf(c) + [
+        ('present: most recent value returned, pairs unchanged', z3.Implies(present, z3.And(
+            c.r() == last_val(o, k), n.live == o.live, n.key == o.key, n.val == o.val, n.t == o.t))),
+        ('absent: default returned', z3.Implies(z3.Not(present), c.r() == dv))] + [
+        ('absent: the pair (k, default) is appended (%d)' % j, z3.Implies(z3.Not(present), f))
+        for j, f in enumerate(appended(o, n, k, dv).children())]
+
+
+setdefault = Contract('OrderedMultiDict.setdefault', setup=setup_setdefault, requires=lambda c: pub_req(c) + (
+    [('a default was given', c.a('default') != MISSING)] if c.eng.variant == 'default' else []),
+    ensures=setdefault_ensures, modifies=PUB_MOD, variants=['nodefault', 'default'])
+setdefault.reveal = {'is appended (%d)' % j: ['O0', 'O6', 'M1', 'S1'] for j in range(12)}
+
+
+def popitem_ensures(c):
+    o, n = V(c, c.old), V(c)
+    res = c.result
+    lastcell = z3.Select(o.prv, o.root)
+    k = z3.Select(o.key, lastcell)
+    return post_wf(c) + [
+        ('returns (key of the most recent pair, its value); all pairs of that key are removed, the others unchanged',
+         z3.And(o.dsize != 0, res.items[0].t == k, res.items[1].t == z3.Select(o.val, lastcell), killed_key(o, n, k)))]
+
+
+def popitem_raises(c):
+    o = V(c, c.old)
+    return [('KeyError only when empty', o.dsize == 0), ('state unchanged', z3.And(same(c, LL_KEYS + D_KEYS), ghost_same(c)))]
+
+
+popitem = Contract('OrderedMultiDict.popitem', setup=S(), requires=pub_req, ensures=popitem_ensures,
+                   raises={'KeyError': popitem_raises}, modifies=PUB_MOD)
+for _c in [pop, poplast, setdefault, popitem]:
+    _c.ghost_mod = GHOST
+    CONTRACTS[_c.qualname] = _c
+for _c in CONTRACTS.values():
+    if _c.qualname not in ('OrderedMultiDict._insert', 'OrderedMultiDict._remove', 'OrderedMultiDict._remove_all',
+                           'OrderedMultiDict._clear_ll'):
+        _c.facts = dict_facts
+PUBLIC += [('OrderedMultiDict.pop', [None]), ('OrderedMultiDict.poplast', ['key', 'nokey']),
+           ('OrderedMultiDict.setdefault', ['nodefault', 'default']), ('OrderedMultiDict.popitem', [None])]
+
+
+# =====================================================================================================================
+# ordered readers (multi=True): walking the ring yields the live cells in stamp order = the pair list
+ValArr = z3.ArraySort(z3.IntSort(), Val)
+
+
+def setup_iter(eng, st, variant=None):
+    d = S()(eng, st)
+    d['multi'] = SBool(True)
+    st.ghost['out_n'] = z3.IntVal(0)
+    st.ghost['out_0'] = z3.Const('outk_init', ValArr)
+    st.ghost['out_1'] = z3.Const('outv_init', ValArr)
+    st.ghost['outcell'] = z3.Const('outcell_init', IntArr)
+    return d
+
+
+def iter_hint(c, event, data):
+    if event != 'yield':
+        return []
+    return [('ghost', 'outcell', z3.Store(c.g('outcell'), c.g('out_n'), c.L('curr')))]
+
+
+def walk_facts(c, v, with_vals):
+    n, oc = c.g('out_n'), c.g('outcell')
+    j, r = z3.Ints('j r')
+    ocj = z3.Select(oc, j)
+    item = z3.And(z3.Select(v.live, ocj), z3.Select(c.g('out_0'), j) == z3.Select(v.key, ocj))
+    if with_vals:
+        item = z3.And(item, z3.Select(c.g('out_1'), j) == z3.Select(v.val, ocj))
+    return [
+        ('every yielded item is the (key, value) of a live cell', z3.ForAll([j], z3.Implies(z3.And(0 <= j, j < n), item))),
+        ('the walk starts at the oldest cell and follows NEXT', z3.And(
+            n >= 0, z3.Implies(n >= 1, z3.Select(oc, 0) == z3.Select(v.nxt, v.root)),
+            z3.ForAll([j], z3.Implies(z3.And(1 <= j, j < n), ocj == z3.Select(v.nxt, z3.Select(oc, j - 1)))))),
+        ('items come out in insertion (stamp) order', z3.ForAll([j], z3.Implies(
+            z3.And(1 <= j, j < n), z3.Select(v.t, z3.Select(oc, j - 1)) < z3.Select(v.t, ocj)))),
+        ('no live cell lies strictly between two consecutive items', z3.ForAll([j, r], z3.Implies(
+            z3.And(1 <= j, j < n, z3.Select(v.live, r)),
+            z3.Not(z3.And(z3.Select(v.t, z3.Select(oc, j - 1)) < z3.Select(v.t, r), z3.Select(v.t, r) < z3.Select(v.t, ocj)))))),
+    ]
+
+
+def iter_inv_for(with_vals):
+    def inv(c):
+        o, v = V(c, c.old), V(c)
+        n, oc = c.g('out_n'), c.g('outcell')
+        curr = c.Lsv('curr')
+        return [('nothing is modified', z3.And(same(c, LL_KEYS + D_KEYS), v.live == o.live, v.t == o.t)),
+                ('root local', c.Lsv('root').t == v.root),
+                ('curr is the successor of the last item', z3.And(
+                    v.node(curr.t), curr.t == z3.If(n == 0, z3.Select(v.nxt, v.root), z3.Select(v.nxt, z3.Select(oc, n - 1)))))
+                ] + [('ll.' + l, f) for l, f in ll_wf(v)] + walk_facts(c, v, with_vals)
+    return inv
+
+
+def iter_ensures_for(with_vals):
+    def ens(c):
+        o, v = V(c, c.old), V(c)
+        n, oc = c.g('out_n'), c.g('outcell')
+        r = z3.Int('r')
+        return [('nothing is modified', z3.And(same(c, LL_KEYS + D_KEYS), v.live == o.live, v.t == o.t))] + \
+            walk_facts(c, v, with_vals) + [
+            ('the walk ends at the newest cell; with no item there is no pair at all', z3.And(
+                z3.Implies(n >= 1, z3.Select(oc, n - 1) == z3.Select(v.prv, v.root)),
+                z3.Implies(n == 0, z3.ForAll([r], z3.Not(z3.Select(v.live, r)))))),
+            ('every live cell lies between the first and the last item (with the no-gap clause: every pair is yielded exactly once)',
+             z3.ForAll([r], z3.Implies(z3.Select(v.live, r), z3.And(
+                 n >= 1, z3.Select(v.t, z3.Select(oc, 0)) <= z3.Select(v.t, r),
+                 z3.Select(v.t, r) <= z3.Select(v.t, z3.Select(oc, n - 1))))))]
+    return ens
+
+
+iteritems = Contract('OrderedMultiDict.iteritems', setup=setup_iter, requires=pub_req, ensures=iter_ensures_for(True),
+                     modifies=lambda c: [], loops={0: Loop(iter_inv_for(True), heap=[], ghost=['outcell'])},
+                     local_types=dict(), generator=True, hints=iter_hint, variants=['multi'])
+iterkeys = Contract('OrderedMultiDict.iterkeys', setup=setup_iter, requires=pub_req, ensures=iter_ensures_for(False),
+                    modifies=lambda c: [], loops={0: Loop(iter_inv_for(False), heap=[], ghost=['outcell'])},
+                    local_types=dict(), generator=True, hints=iter_hint, variants=['multi'])
+for _c in [iteritems, iterkeys]:
+    CONTRACTS[_c.qualname] = _c
+PUBLIC += [('OrderedMultiDict.iteritems', ['multi']), ('OrderedMultiDict.iterkeys', ['multi'])]
